@@ -21,6 +21,10 @@ func (QueryEventScenario) Name() string { return "queryevent" }
 
 func (QueryEventScenario) GenCase(r *rand.Rand, prop string) interface{} {
 	c := &SvcCase{SvcName: "test", Gate: true, Epochs: 1, MidStop: []int{-1}}
+	if chance(r, 15) {
+		// shut down in the middle of the load, with query events active
+		c.MidStop = []int{20 + r.IntN(150)}
+	}
 	c.Workers = pick(r, 1, 2, 3, 4)
 	c.InCh = pick(r, 8, 1024)
 	c.QueryMs = pick(r, 50, 1000, 3000)
@@ -112,6 +116,17 @@ func (QueryEventScenario) Execute(sim *sched.Sim, ci interface{}, prop string, r
 			}
 		}
 		run.E.checkQueryEvents(leakBase)
+		if c.MidStop[0] >= 0 && run.E.Epochs[0].ShutdownReturn != 0 {
+			// the service was stopped while query events were active: their
+			// timers still expire, and everything they allocated is released
+			time.Sleep(time.Duration(c.QueryMs)*time.Millisecond + time.Second)
+			for i := 0; i < 5000 && sim.Decide(nil); i++ {
+			}
+			run.H.Evals++
+			if n := stacksContaining("startQueryListener") - leakBase; n > 0 {
+				run.H.Violate("C15", "leak", "after-shutdown", fmt.Sprintf("%d query listener goroutine(s) still exist one query duration after the service was shut down with query events active (%d query events were started)", n, len(run.E.QEs)))
+			}
+		}
 	}
 	o := run.Outcome(prop)
 	o.Faults["query-subscribe-error"] = 0
